@@ -55,12 +55,31 @@ type PoolWorld struct {
 	Hosts    map[string]*FakeHost
 	Step     int // logical step counter for ordering observations
 	nonceSeq int64
+	// YieldPoints makes every BalanceStore call and the settlement a scheduling point.
+	YieldPoints bool
 }
 
 // DepositStore adds per-account on-chain deposits to balances exactly like payment.contractPayment.
 type DepositStore struct {
 	store.AccountStore
 	Deposits map[store.Account]*big.Int
+	W        *PoolWorld
+}
+
+func (d *DepositStore) point(what string) {
+	if d.W != nil && d.W.YieldPoints {
+		vsched.Yield("balancestore:" + what)
+	}
+}
+
+func (d *DepositStore) AddAccountBalance(a store.Account, c *big.Int) error {
+	d.point("AddAccountBalance")
+	return d.AccountStore.AddAccountBalance(a, c)
+}
+
+func (d *DepositStore) AddNodeBalance(id store.NodeID, c *big.Int) error {
+	d.point("AddNodeBalance")
+	return d.AccountStore.AddNodeBalance(id, c)
 }
 
 func (d *DepositStore) deposit(a store.Account) *big.Int {
@@ -71,6 +90,7 @@ func (d *DepositStore) deposit(a store.Account) *big.Int {
 }
 
 func (d *DepositStore) GetNodeBalance(nodeID store.NodeID) (store.Balance, error) {
+	d.point("GetNodeBalance")
 	b, err := d.AccountStore.GetNodeBalance(nodeID)
 	if err != nil {
 		return b, err
@@ -83,6 +103,7 @@ func (d *DepositStore) GetNodeBalance(nodeID store.NodeID) (store.Balance, error
 }
 
 func (d *DepositStore) GetAccountBalance(a store.Account) (store.Balance, error) {
+	d.point("GetAccountBalance")
 	b, err := d.AccountStore.GetAccountBalance(a)
 	if err != nil {
 		return b, err
@@ -102,7 +123,7 @@ func NewPoolWorld(cfg PoolConfig) *PoolWorld {
 	if cfg.WrapStore != nil {
 		w.Store = cfg.WrapStore(w.Raw)
 	}
-	w.BStore = &DepositStore{AccountStore: w.Store, Deposits: map[store.Account]*big.Int{}}
+	w.BStore = &DepositStore{AccountStore: w.Store, Deposits: map[store.Account]*big.Int{}, W: w}
 	var mgr balance.Manager
 	if !cfg.NoManager {
 		price := cfg.Price
@@ -127,6 +148,9 @@ func NewPoolWorld(cfg PoolConfig) *PoolWorld {
 		BalanceStore: w.BStore,
 		WithdrawMin:  cfg.WithdrawMin,
 		Settle: func(account store.Account, amount *big.Int, newBalance *big.Int) (string, error) {
+			if w.YieldPoints {
+				vsched.Yield("settle")
+			}
 			n := len(w.Settles)
 			ok := w.SettleOK == nil || w.SettleOK(n)
 			w.Settles = append(w.Settles, Settlement{Account: account, Amount: amount.String(), NewBalance: newBalance.String(), Failed: !ok})
